@@ -79,6 +79,77 @@ def try_define(dec, module, name, q_ann=""):
         return f"other:{type(e).__name__}:{str(e)[:80]}", generic
 
 
+# kernels of several statements, built only from the decorator's own vocabulary, in orders and nestings that one-statement
+# kernels do not show: each must be accepted
+COMPOUND = [
+    ("tweezer", """def k(a: grid.Grid[Any, Any], b: grid.Grid[Any, Any]):
+    action.move(a)
+    action.turn_off(action.ALL, action.ALL)
+    action.set_loc(b)
+    action.turn_on(action.ALL, [0])
+    action.move(grid.shift(b, 1.0, 0.0))
+"""),
+    ("tweezer", """def k(c: bool, a: grid.Grid[Any, Any], b: grid.Grid[Any, Any]):
+    if c:
+        action.move(a)
+    else:
+        action.set_loc(b)
+    z = spec.get_static_trap(zone_id="traps")
+    action.move(filled.vacate(z, [(0, 0)]))
+"""),
+    ("tweezer", """def k(n: int, a: grid.Grid[Any, Any]):
+    action.turn_on(action.ALL, action.ALL)
+    for i in range(n):
+        action.move(grid.shift(a, 1.0 * i, 0.0))
+    action.set_loc(a)
+"""),
+    ("move", """def k(g: grid.Grid[Any, Any], x: float):
+    d = schedule.device_fn(tk, [0], [0])
+    with schedule.parallel():
+        d(g)
+        with schedule.auto():
+            d(g)
+    with schedule.auto():
+        with schedule.parallel():
+            d(grid.shift(g, x + 4.0, 0.0))
+    with schedule.parallel():
+        with schedule.parallel():
+            d(g)
+            r = schedule.reverse(d)
+            r(g)
+"""),
+    ("move", """def k(g: grid.Grid[Any, Any], n: int):
+    d = schedule.device_fn(tk, [0], [0])
+    for i in range(n):
+        with schedule.parallel():
+            d(grid.shift(g, 1.0 * i, 0.0))
+        gate.global_rz(0.5)
+    init.fill([g, filled.vacate(g, [(0, 0)])])
+    m = measure.measure((g,))
+    if n > 1:
+        gate.top_hat_cz(spec.get_static_trap(zone_id="traps"))
+"""),
+    ("kernel", """def k(g: grid.Grid[Any, Any], q):
+    a = atom.new(g, q)
+    b = atom.move(grid.shift(g, 1.0, 0.0), a)
+    gate.global_rz(0.5)
+    atom.reset_position(b, q)
+    return atom.measure(b, q)
+"""),
+]
+
+
+def compound_stream(ctx):
+    for dec, body in COMPOUND:
+        src = HDR + f"@{dec}\n{body}"
+        ctx.count("compound_kernels")
+        try:
+            T.load_source(src, "vocc")
+        except Exception as e:  # noqa: BLE001
+            ctx.fail({"decorator": dec, "source": body},
+                     f"@{dec} refuses a kernel built only from its documented vocabulary: {type(e).__name__}: {str(e)[:200]}")
+
+
 def run(ctx):
     tab = ctx.tables.get("Vocab")
     # the wrapper list is read the same way the extractor reads it (reflection), independently of the Lean table
@@ -144,6 +215,7 @@ def run(ctx):
     ctx.sample({"wrapper": "action.set_loc", "results": {k: try_define(k, "action", "set_loc")[0] for k in DOCUMENTED}})
     if ctx.counts.get("no_behavioural_verdict", 0) > 0.15 * ctx.counts["pairs"]:
         raise HarnessFault("too many wrapper/decorator pairs without a behavioural verdict (templates out of date)")
+    compound_stream(ctx)
     tracer_guard(ctx)
     fold_guard(ctx)
 
